@@ -339,7 +339,7 @@ def _run(ctx, pq):
         ctx.case(case)
         ctx.correspondence("paths_to_cats ~ api.paths_to_cats", case, model, impl)
 
-    if getattr(ctx, "gen_paths", False):       # the regenerated text itself, evaluated by the kernel, against the real function
+    if "strip" in (getattr(ctx, "gen_paths", None) or ()):       # the regenerated text itself, evaluated by the kernel, against the real function
         ok_paths = sorted({p for p in d_paths if L.coq_ascii_ok(p)})
         L.gen_paths_samples(ctx, [], rng.sample(ok_paths, min(40, len(ok_paths))) + ["", "part.0.parquet", "/x", "a/"])
     # ---------------------------------------------------------------- E: whole datasets
